@@ -59,6 +59,19 @@ CLAIMED["C15"] = {
     "assumptions": ["evaluation steps cost zero simulated time, so elapsed time is exactly time spent blocked"],
 }
 
+CLAIMED["C20"] = {
+    "engine": "fs",
+    "level": "fault_enumeration",
+    "technique": "deterministic simulation of the file system: seeded directory layouts with symbolic links (to files/directories, inside/outside, chained, looping, dangling) on a real temp tree, every location string up to 2 components x loading contexts enumerated, a file-system adversary acting in the resolve/read window through a guarded hook, content markers plus an independent path resolver as oracle; in-memory fs.FS with injected open/read faults for FSLibrary",
+    "text": "For each seeded layout every 1- and 2-component location over the layout's names plus '.' and '..', sampled 3-4 component locations, and every absolute spelling of every node are loaded through LoadSource from four loading-file contexts, and a sample end-to-end through (load-file ...) evaluated from a loader file; in half of the layouts an adversary re-points a symlink / removes / replaces the resolved target between path resolution and read. Identity of what was served or evaluated is established by unique content markers: it must be a whole file whose real path lies under the root's real directory; for locations where lexical and physical parents agree the served file must be the one an independent component-by-component resolver names relative to the loading file's directory. FSLibrary runs over an in-memory fs.FS with injected open errors, read errors and short reads. Enumeration is complete for locations of at most 2 components per layout; layouts are sampled.",
+    "note": "Trusted: the layout-to-disk builder and the independent resolver in sim/e9_fs.go; the adversary only re-points/removes links and files (the class the code documents itself as handling), it never replaces a real directory component by a link; refusals of inside files (over-refusal) are counted, not flagged, because the property is an only-if.",
+    "design_ref": "4/C20",
+    "rule": "case = directory layout (skeleton + 2-6 seeded symlinks) x root spelling x optional adversary move; each case performs ~2600 loads. distinct_nontrivial counts distinct per-layout result sequences among layouts where a location resolved outside the root or the adversary acted.",
+    "real": ["lisp.RelativeFileSystemLibrary on a real directory tree", "lisp.FSLibrary", "LEnv.LoadFile / load-file / Runtime.sourceContext for the end-to-end sample", "parser/*"],
+    "stubs": ["the directory tree (built per case under os.MkdirTemp)", "file-system adversary at the guarded hook lisp.verifPoint(\"library.resolved\")", "in-memory fs.FS with fault injection", "sim:mark probe builtin"],
+    "assumptions": ["loading files are addressed by their real (link-free) paths", "locations whose lexical and physical '..' interpretation differ are checked for safety only, not for which inside file is chosen"],
+}
+
 NOT_APPLICABLE = {
     "C01": "pure function of the program text: no schedule, clock, fault or history in the statement; needs a definitional interpreter (differential testing), which is a different technique",
     "C02": "relation between two fault-free deterministic executions under two static configurations plus a height bound that is a function of the program; nothing for a simulator to schedule or inject (the TRO knob is still randomised inside C04-C06)",
@@ -71,7 +84,6 @@ NOT_APPLICABLE = {
     "C09": "a simulation target in DESIGN.md; check not built yet at this commit",
     "C10": "a simulation target in DESIGN.md; check not built yet at this commit",
     "C11": "a simulation target in DESIGN.md (history clauses); check not built yet at this commit",
-    "C20": "a simulation target in DESIGN.md; check not built yet at this commit",
     "C16": "text-to-text function of the source; no schedule, clock, fault or history",
     "C17": "program-equivalence between two fault-free evaluations; no schedule, clock, fault or history",
     "C18": "location and trace are functions of the program; the rethrow-identity clause is checked inside C06",
